@@ -154,6 +154,12 @@ TYPEMAP = {
     'std::stringstream': 'ios_t', 'std::ostringstream': 'ios_t',
     'std::istringstream': 'ios_t', 'std::basic_ios<char>': 'ios_t', 'std::ios_base': 'ios_t',
     'std::map<std::string, mpz_ptr>': 'map_str_mpz',
+    'std::vector<unsigned char>::const_iterator': 'vec_u8_iter', 'std::vector<unsigned char>::iterator': 'vec_u8_iter',
+    '__gnu_cxx::__normal_iterator<unsigned char *, std::vector<unsigned char>>': 'vec_u8_iter',
+    '__gnu_cxx::__normal_iterator<const unsigned char *, std::vector<unsigned char>>': 'vec_u8_iter',
+    'std::vector<unsigned char>::difference_type': 'long',
+    '__gnu_cxx::__normal_iterator<unsigned char *, std::vector<unsigned char>>::difference_type': 'long',
+    '__gnu_cxx::__normal_iterator<const unsigned char *, std::vector<unsigned char>>::difference_type': 'long',
 }
 
 
@@ -195,6 +201,7 @@ class Types:
         self.map = dict(TYPEMAP)
         self.map.update(cfg.get('typemap', {}))
         self.classes = set(cfg.get('classes', []))
+        self.scalars = set(cfg.get('scalar_types', []))
 
     def norm(self, t):
         for pat, rep in NORMALISE:
@@ -269,7 +276,7 @@ class Types:
         return (self.base(t) + ptr, arr, is_ref)
 
     def is_scalar(self, c):
-        return c.endswith('*') or c in SCALAR_C or c.startswith('enum ')
+        return c.endswith('*') or c in SCALAR_C or c.startswith('enum ') or c in self.scalars
 
 
 # --------------------------------------------------------------------------
@@ -281,7 +288,7 @@ OPNAMES = {
     'operator==': 'op_eq', 'operator!=': 'op_ne', 'operator<': 'op_lt',
     'operator+': 'op_add', 'operator()': 'op_call', 'operator*': 'op_deref',
     'operator->': 'op_arrow', 'operator++': 'op_inc', 'operator!': 'op_not',
-    'operator bool': 'op_bool',
+    'operator bool': 'op_bool', 'operator-': 'op_sub', 'operator--': 'op_dec',
 }
 
 STL_C = ('vec_', 'str_t', 'ios_t', 'map_', 'pair_')
@@ -693,6 +700,14 @@ class Emitter:
         if a0['kind'] == 'MaterializeTemporaryExpr' and scalar and not stl:
             # prvalue scalar bound to a const reference parameter of a library function: needs an address
             pass
+        if c is not None and c.endswith('_iter'):
+            # iterators are small value objects
+            a1 = a0
+            while a1.get('kind') in ('MaterializeTemporaryExpr', 'CXXConstructExpr', 'ImplicitCastExpr', 'CXXBindTemporaryExpr') and a1.get('inner'):
+                if a1['kind'] == 'CXXConstructExpr' and len(a1['inner']) != 1:
+                    break
+                a1 = a1['inner'][0]
+            return self.expr(a1, ctx)
         if stl and scalar:
             # STL stubs take scalar elements/indices by value
             if a0['kind'] == 'MaterializeTemporaryExpr':
@@ -1129,6 +1144,10 @@ class Emitter:
             raise ExtractionError('operator %s outside the subset' % opname)
         cls = a0c
         stl = cls.startswith(STL_C)
+        if cls.endswith('_iter'):
+            al = [self.arg(a, ctx, stl=True) for a in args]
+            self.fire('E6_operator')
+            return '%s__%s(%s)' % (cls, OPNAMES[opname], ', '.join(al))
         objp = self.addr(args[0], ctx)
         al = [self.arg(a, ctx, stl=stl) for a in args[1:]]
         cname = '%s__%s' % (cls, OPNAMES[opname])
@@ -1350,6 +1369,37 @@ def extract(cfg, target, specs):
         'file': target['file'], 'line': source_pos(node, target['file']),
         'sha': hashlib.sha256(src).hexdigest()[:16],
     }
+
+
+def extract_typedef_text(relheader, name):
+    """verbatim text of `typedef struct|enum { ... } name;` from a header of /repo, as C (bool -> _Bool)"""
+    with open(os.path.join(REPO, relheader)) as f:
+        txt = f.read()
+    m2 = re.search(r'\benum\s+%s\s*\{[^}]*\}\s*;' % re.escape(name), txt)
+    if m2:
+        body = re.sub(r'//[^\n]*', '', m2.group(0))
+        return body + '\ntypedef enum %s %s;\n' % (name, name)
+    m = re.search(r'\}\s*%s\s*;' % re.escape(name), txt)
+    if not m:
+        raise ExtractionError('typedef %s not found in %s' % (name, relheader))
+    end = m.end()
+    depth = 0
+    i = m.start()
+    while i >= 0:
+        if txt[i] == '}':
+            depth += 1
+        elif txt[i] == '{':
+            depth -= 1
+            if depth == 0:
+                break
+        i -= 1
+    head = txt.rfind('typedef', 0, i)
+    if head < 0 or not re.match(r'typedef\s+(struct|enum)\s*(\w+\s*)?$', txt[head:i].strip() + ''):
+        raise ExtractionError('typedef %s in %s is not a plain struct/enum typedef' % (name, relheader))
+    body = txt[head:end]
+    body = re.sub(r'//[^\n]*', '', body)
+    body = re.sub(r'\bbool\b', '_Bool', body)
+    return body + '\n'
 
 
 def extract_global(cfg, relfile, name):
